@@ -280,7 +280,10 @@ class BatchWorld:
         """reproduces front_end.run()/on_startup() with simulated collaborators (harness code)."""
         m = self.mods
         fe = m.front_end
-        ctx = self._in_proc('front_end')
+        # every incarnation of the front end is its own simulated process (see crash_front_end)
+        self.fe_gen = getattr(self, 'fe_gen', 0) + 1
+        self.fe_proc = 'front_end' if self.fe_gen == 1 else f'front_end#{self.fe_gen}'
+        ctx = self._in_proc(self.fe_proc)
         svc = self.net.services.get('batch') or Service('batch', 'front_end')
         svc.context = ctx
         self.net.add_service('batch', svc)
@@ -332,6 +335,41 @@ class BatchWorld:
             svc.handler = aiohttp_app_handler(app)
             svc.up = True
         await asyncio.get_running_loop().create_task(boot(), context=ctx.copy())
+
+    def crash_front_end(self):
+        """the front-end process dies now: its handlers never run again (no except / finally), the requests it was
+        serving are reset, its database connections are reset by the server (open transactions roll back)."""
+        loop = asyncio.get_running_loop()
+        loop.crash(self.fe_proc)
+        svc = self.net.services.get('batch')
+        if svc is not None:
+            svc.crash()
+        n = self.server.kill_proc(self.fe_proc)
+        self.fe_app = None
+        self.ctx.fault('crash.front_end')
+        self.ctx.log.add('world', 'front_end_crashed', self.fe_gen, n)
+
+    async def restart_front_end(self):
+        loop = asyncio.get_running_loop()
+        for _ in range(60):
+            try:
+                await self.start_front_end()
+                break
+            except asyncio.CancelledError:
+                raise
+            except Exception:  # pylint: disable=broad-except
+                # a boot that fails (database error during start-up) kills that incarnation; the next one is started
+                loop.crash(self.fe_proc)
+                svc = self.net.services.get('batch')
+                if svc is not None:
+                    svc.crash()
+                self.server.kill_proc(self.fe_proc)
+                self.fe_app = None
+                self.ctx.probe('front_end_boot_failed')
+                await asyncio.sleep(2)
+        else:
+            raise RuntimeError('the front end did not come up after 60 attempts')
+        self.ctx.log.add('world', 'front_end_restarted', self.fe_gen)
 
     async def start_stub_driver(self):
         """front-end-only worlds: a driver that only acknowledges notifications."""
